@@ -159,6 +159,7 @@ def iter_task(pid, ascending):
         base = '%s#%d' % (name_base[0], n)
         for o in st.obligations:
             out.append(discharge('%s/%s' % (base, o.name), o.kind, o.pc, o.goal, function='Cache._iter', path=p.decisions))
+        out.append(no_cursor_across_yield(base, p, 'Cache._iter'))
         if p.kind == 'cut':
             continue
         if p.kind != 'return':
@@ -175,6 +176,16 @@ def iter_task(pid, ascending):
     if nret == 0:
         out.append(Result(name_base[0], 'vacuity', 'error', detail='no finishing path'))
     return out
+
+
+def no_cursor_across_yield(base, p, fn):
+    """A generator must not hand out items while a SELECT of its own is still being stepped: the paused
+    connection would keep its read snapshot, so later lookups of the same thread would not see writes that
+    other clients have completed (and its own writes would fail to get the lock)."""
+    bad = [e for e in p.state.trace if e[0] == 'GEN_YIELD' and e[1].get('open_cursors', 0) > 0]
+    return Result(base + '.rows_fetched_before_yield', 'trace', 'proved' if not bad else 'refuted', ms=0, backend='engine',
+                  function=fn, path=p.decisions,
+                  detail=None if not bad else 'yields while a cursor of this function is still open (%d times on this path)' % len(bad))
 
 
 # ------------------------------------------------------------------ sorted-order iteration: Cache.iterkeys
@@ -205,8 +216,20 @@ def dbval_order_lemma(pid='C03'):
     ta, tb, ba, bb = SM.DbVal.tv(a), SM.DbVal.tv(b), SM.DbVal.bv(a), SM.DbVal.bv(b)
     tl, bl = SM.text_lt, SM.blob_lt
     insts = [z3.Or(ta == tb, tl(ta, tb), tl(tb, ta)), z3.Or(ba == bb, bl(ba, bb), bl(bb, ba))]
-    r = discharge(pid + '.lemma.dbval_trichotomy', 'lemma', insts, trichotomy(a, b), function='SQLite comparison (model)')
-    return [r]
+    # split by the classes of a and b (16 small cases): the unsplit goal was occasionally left undecided,
+    # depending on what the worker process had solved before
+    out = []
+    D = SM.DbVal
+    # arithmetic fact to_int(to_real(i)) = i, stated at the payloads (z3's handling of is_int / to_int in
+    # the mixed int/real cases depends on its random seed: 7 of 24 seeds proved the unaided goal)
+    for x_, i_ in ((D.rv(a), D.iv(b)), (D.rv(b), D.iv(a))):
+        insts.append(z3.Implies(x_ == z3.ToReal(i_), z3.And(z3.IsInt(x_), z3.ToInt(x_) == i_)))
+    classes = [('int', D.is_IntV), ('real', D.is_RealV), ('text', D.is_TextV), ('blob', D.is_BlobV)]
+    for na, ca in classes:
+        for nb, cb in classes:
+            out.append(discharge('%s.lemma.dbval_trichotomy[%s,%s]' % (pid, na, nb), 'lemma', insts + [ca(a), cb(b)], trichotomy(a, b),
+                                 function='SQLite comparison (model)'))
+    return out
 
 
 def iterkeys_task(pid, reverse):
@@ -317,6 +340,7 @@ def iterkeys_task(pid, reverse):
     for n, p in enumerate(explore(body, max_paths=2000)):
         st = p.state
         base = '%s#%d' % (name_base, n)
+        out.append(no_cursor_across_yield(base, p, 'Cache.iterkeys'))
         for o in st.obligations:
             out.append(discharge('%s/%s' % (base, o.name), o.kind, o.pc, o.goal, function='Cache.iterkeys', path=p.decisions))
         if p.kind == 'cut':
